@@ -96,6 +96,16 @@ class C13(WigBedProp):
                             if c:
                                 out.append(c)
                             k += 1
+        # valid genome-scale inputs: chromosomes of up to 2^32 - 1 bases, widely spaced items with non-round values (data
+        # sections that do not compress at all), values / entries longer than 2^24 bases: must be accepted and must return
+        for g in range(48 if tier == "thorough" else 12):
+            r = rng.fork(f"genome{g}")
+            bed = g % 3 == 2
+            names, sizes, data, tags = bbgen.gen_genome_scale(r, bed=bed, value_mode=r.choice(["dec", "bits"]), nitems=r.choice([30, 60, 100]))
+            o = {"compress": 1, "ips": r.choice([64, 1024]), "bs": r.choice([2, 256]), "zooms": r.choice(["auto", "none", "100000,400000"]), "pass": 1 + g % 2, "inmem": g % 2,
+                 "rt": "mt", "threads": 2, "chan": 100, "src": ("iter", "file", "par")[g % 3], "sort": "all"}
+            lines = [bbgen.opt_line(o)] + (bbgen.bed_lines(names, sizes, data) if bed else bbgen.wig_lines(names, sizes, data))
+            out.append(CaseT(f"genome{g}", "bed" if bed else "wig", [], lines, {"valid_genome_scale", f"src_{o['src']}", "bed" if bed else "wig"}))
         # valid degenerate inputs: must be accepted and must return
         for bed in (False, True):
             for variant in ("zero_only", "one_item", "absent_chrom", "zero_mid", "zero_start_only_chrom2"):
